@@ -106,8 +106,9 @@ class Pristine:
     """Renders renderables on a hook-free console of the same geometry and turns the
     bytes into screen rows (cells with styles) through the terminal model."""
 
-    def __init__(self, width, height, color_system, clock=None, terminal=True):
+    def __init__(self, width, height, color_system, clock=None, terminal=True, no_color=False):
         self.terminal = terminal
+        self.no_color = no_color
         self.width = width
         self.height = height
         self.color_system = color_system
@@ -120,7 +121,7 @@ class Pristine:
         if self.clock is not None:
             kw = {"get_time": self.clock.time, "get_datetime": self.clock.datetime}
         return Console(file=io.StringIO(), width=self.width, height=self.height, force_terminal=self.terminal,
-                       color_system=self.color_system, _environ={}, log_time=False, log_path=False, **kw)
+                       color_system=self.color_system, _environ={}, log_time=False, log_path=False, no_color=self.no_color, **kw)
 
     def bytes(self, fn):
         c = self.console()
